@@ -1,18 +1,24 @@
 #!/bin/sh
-# usage: tools/try_seed.sh <seed dir with patch.diff demo.py meta.json> [props...]
-# applies the change to /repo, confirms tests pass + demo fails, runs the checks, reverts.
-d="$1"; shift
+# usage: tools/try_seed.sh <worktree>/<seedN> [props...]
+# 1. in the scratch worktree: demo passes on the original, tests pass + demo fails with the change
+# 2. applies the change to /repo, runs the checks, reverts /repo.
+d=$(realpath "$1"); shift
+w=$(dirname "$d")
 pid=$(python3 -c "import json,sys; print(json.load(open('$d/meta.json'))['property'])")
 props="${*:-$pid}"
+cd "$w" || exit 3
+git checkout -q -- jsonpath_rfc9535
+/venv/bin/python "$d/demo.py" >/dev/null 2>&1; echo "demo exit on original: $?"
+git apply "$d/patch.diff" || { echo "patch does not apply in worktree"; exit 3; }
+echo "tests with change: $(/venv/bin/python -m pytest -q -p no:cacheprovider --continue-on-collection-errors 2>&1 | tail -1)"
+/venv/bin/python "$d/demo.py" >/dev/null 2>&1; echo "demo exit with change: $?"
+git checkout -q -- jsonpath_rfc9535
 cd /repo || exit 3
 git diff --quiet || { echo "repo dirty"; exit 3; }
-echo "== original: demo"; /venv/bin/python "$d/demo.py" >/dev/null 2>&1; echo "demo exit on original: $?"
-git apply "$d/patch.diff" || { echo "patch does not apply"; exit 3; }
-echo "== with change: tests"; /venv/bin/python -m pytest -q -p no:cacheprovider --continue-on-collection-errors 2>&1 | tail -1
-/venv/bin/python "$d/demo.py" >/dev/null 2>&1; echo "demo exit with change: $?"
+git apply "$d/patch.diff" || { echo "patch does not apply to /repo"; exit 3; }
 cd /verif
 for p in $props; do
   timeout 2400 ./check "$p" > /tmp/w/seedrun_$p.txt 2>&1; c=$?
-  echo "check $p exit=$c: $(grep -c '^VIOLATION' /tmp/w/seedrun_$p.txt) violation lines"; grep -A1 '^VIOLATION\|^DEGRADED\|^CHECKER' /tmp/w/seedrun_$p.txt | cut -c1-260 | head -12
+  echo "check $p exit=$c: $(grep -c '^VIOLATION' /tmp/w/seedrun_$p.txt) violation lines"; grep -A1 '^VIOLATION\|^DEGRADED\|^CHECKER\|^UNDECIDED' /tmp/w/seedrun_$p.txt | cut -c1-300 | head -14
 done
 git -C /repo checkout -- . ; git -C /repo status --short | head -3
